@@ -286,6 +286,41 @@ fn random_perturb(rng: &mut Rng) -> Vec<PlanItem> {
     v
 }
 
+/// Every identifier of the generated form letters+digits (`v12`, `C3`, `Err14`, `cfn27`) gets
+/// `tag` appended — everywhere, also inside string placeholders — so that the program is the
+/// same up to names and all its names are new.
+pub fn rename_numbered(text: &str, tag: &str) -> String {
+    let b: Vec<char> = text.chars().collect();
+    let mut out = String::with_capacity(text.len() + 64);
+    let mut i = 0;
+    while i < b.len() {
+        let c = b[i];
+        if c.is_ascii_alphabetic() || c == '_' {
+            let st = i;
+            while i < b.len() && (b[i].is_ascii_alphanumeric() || b[i] == '_') {
+                i += 1;
+            }
+            let w: String = b[st..i].iter().collect();
+            let letters = w.chars().take_while(|c| c.is_ascii_alphabetic()).count();
+            let digits = w.chars().skip(letters).take_while(|c| c.is_ascii_digit()).count();
+            out.push_str(&w);
+            if letters > 0 && digits > 0 && letters + digits == w.len() {
+                out.push_str(tag);
+            }
+        } else if c.is_ascii_digit() {
+            // a number (or something starting with a digit): copy the whole token
+            while i < b.len() && (b[i].is_ascii_alphanumeric() || b[i] == '_' || b[i] == '.') {
+                out.push(b[i]);
+                i += 1;
+            }
+        } else {
+            out.push(c);
+            i += 1;
+        }
+    }
+    out
+}
+
 /// The program as it was one edit ago: one top-level one-line statement deleted, or a fresh
 /// definition inserted before a top-level line — the history of a file that is transpiled
 /// again after every change (watch mode).  `None` when the text has no such line.
@@ -995,23 +1030,6 @@ pub fn run_check(tier_name: &str, seed: u64, verif_dir: &str) -> Outcome {
         .map(|(i, &k)| if programs[i].features.iter().any(|f| fenced.contains(f)) { 0 } else { k })
         .collect();
     let scenarios = build_scenarios(seed, &programs, &active_configs, &mut rng.fork(3), &fenced);
-    // canonical references of the programs the scenarios made themselves (edited versions)
-    {
-        let mut seen: BTreeSet<String> = refs.map.keys().cloned().collect();
-        let mut extra: Vec<Program> = vec![];
-        for sc in &scenarios {
-            for p in &sc.programs {
-                if seen.insert(program_key(p)) {
-                    extra.push(p.clone());
-                }
-            }
-        }
-        let rs: Vec<JobResult> = par_map(&extra, w, |_, p| run_scenario(&canonical_scenario(p, 0)).jobs.pop().unwrap_or_default());
-        for (p, r) in extra.iter().zip(rs.into_iter()) {
-            refs.map.insert(program_key(p), r);
-        }
-        edited_programs = extra.len();
-    }
     // "marathons": one long-lived thread that transpiles a long sequence of mostly REJECTED
     // programs — state that accumulates over many calls (a leaked counter, a growing table)
     // needs a long history to matter
@@ -1055,6 +1073,71 @@ pub fn run_check(tier_name: &str, seed: u64, verif_dir: &str) -> Outcome {
                 });
             }
         }
+    }
+    // "vocabulary marathons": one thread transpiles a long sequence of ordinary (accepted)
+    // programs in each of which every generated identifier is new — `v12` becomes `v12x3k41` —
+    // so that the thread meets thousands of distinct names: a table with a capacity (an
+    // interner, a bounded cache) that restarts or evicts in the middle of a check needs that
+    let mut vocabulary_jobs = 0usize;
+    {
+        let mut vrng = rng.fork(7);
+        let (n, len) = if tier.name == "thorough" { (8usize, 420usize) } else { (3usize, 200usize) };
+        let n = envnum("VERIF_C12_VOCAB_MARATHONS", n);
+        let len = envnum("VERIF_C12_VOCAB_LEN", len);
+        let pool: Vec<usize> = (0..programs.len())
+            .filter(|&i| active_configs[i] > 0 && kinds[i] == "generated" && ref_results[i].0.verdict == "ok" && programs[i].path_mode.is_empty() && programs[i].files.iter().map(|f| f.text.len()).sum::<usize>() < 2500)
+            .collect();
+        if !pool.is_empty() {
+            for m in 0..n {
+                let mut progs = vec![];
+                let mut schedule = vec![];
+                for k in 0..len {
+                    let mut p = programs[*vrng.pick(&pool)].clone();
+                    let tag = format!("x{m}k{k}");
+                    for f in p.files.iter_mut() {
+                        f.text = rename_numbered(&f.text, &tag);
+                    }
+                    p.label = format!("{} renamed {tag}", p.label);
+                    progs.push(p);
+                    schedule.push(Round { jobs: vec![Job { thread: 0, program: k, measured: true, perturb: vec![] }], interleave_seed: 0, switch_permille: 0 });
+                }
+                vocabulary_jobs += len;
+                scenarios.push(C12Scenario {
+                    property: "C12".into(),
+                    seed,
+                    index: scenarios.len() as u64,
+                    programs: progs,
+                    threads: vec![ThreadCfg { hash_seed: vrng.next(), readdir_seed: 0 }],
+                    env: BTreeMap::new(),
+                    cwd: "/".into(),
+                    clock: CANON_CLOCK,
+                    clock_step_ns: 0,
+                    cpus: 0,
+                    tmp_missing: false,
+                    env_fuzz: 0,
+                    pid: CANON_PID,
+                    schedule,
+                    expect: None,
+                });
+            }
+        }
+    }
+    // canonical references of the programs the scenarios made themselves (edited and renamed versions)
+    {
+        let mut seen: BTreeSet<String> = refs.map.keys().cloned().collect();
+        let mut extra: Vec<Program> = vec![];
+        for sc in &scenarios {
+            for p in &sc.programs {
+                if seen.insert(program_key(p)) {
+                    extra.push(p.clone());
+                }
+            }
+        }
+        let rs: Vec<JobResult> = par_map(&extra, w, |_, p| run_scenario(&canonical_scenario(p, 0)).jobs.pop().unwrap_or_default());
+        for (p, r) in extra.iter().zip(rs.into_iter()) {
+            refs.map.insert(program_key(p), r);
+        }
+        edited_programs = extra.len();
     }
     let results: Vec<JobsResult> = par_map(&scenarios, w, |_, sc| run_scenario(sc));
 
@@ -1227,6 +1310,7 @@ pub fn run_check(tier_name: &str, seed: u64, verif_dir: &str) -> Outcome {
             "verdicts": verdicts,
             "distinct_hash_orders": orders.len(),
             "jobs_with_earlier_jobs_in_process": with_history,
+            "jobs_in_vocabulary_marathons": vocabulary_jobs,
             "edited_versions_run_before_their_program_on_the_same_thread": edited_programs,
             "scenarios_with_environment_fuzzing": scenarios.iter().filter(|s| s.env_fuzz != 0).count(),
             "environment_variables_asked_for": results.iter().flat_map(|r| r.jobs.iter()).flat_map(|j| j.env_reads.iter().cloned()).collect::<BTreeSet<String>>(),
